@@ -53,6 +53,51 @@ func (c05) Generate(r *rand.Rand, t string) []*Case {
 			}
 		}
 	}
+	// every short string over a representative alphabet as last path element (exhaustive up
+	// to length 3, sampled at length 4 in quick and exhaustive in thorough): letters of both
+	// cases, digits, underscore, punctuation, multi-byte runes incl. the two whose lower case
+	// is ASCII, and a slash; alone and together with a second path with the same element
+	alpha := []string{"a", "Z", "0", "9", "_", "-", ".", "\u00e9", "\u0130", "\u212a", "/"}
+	var elems []string
+	var build func(prefix string, depth int)
+	build = func(prefix string, depth int) {
+		if prefix != "" {
+			elems = append(elems, prefix)
+		}
+		if depth == 0 {
+			return
+		}
+		for _, a := range alpha {
+			build(prefix+a, depth-1)
+		}
+	}
+	build("", 3)
+	for _, a := range alpha { // length 4
+		for _, e := range elems {
+			if len([]rune(e)) == 3 && (t == "thorough" || r.Intn(10) == 0) {
+				elems = append(elems, a+e)
+			}
+		}
+	}
+	for i, e := range elems {
+		paths := []string{"h.io/" + e}
+		if i%3 == 0 {
+			paths = append(paths, "g.io/x/"+e)
+		}
+		setup := hist.History{{Kind: "newfile", F: 0, A: "p"}}
+		if i%5 == 0 {
+			setup = append(setup, hist.Op{Kind: "prefix", F: 0, A: "pkg"})
+		}
+		refs := []int{0}
+		if len(paths) > 1 {
+			refs = []int{0, 1, 0}
+		}
+		rc, h := BuildRefCase(r, paths, setup, "", refs, nil)
+		h = append(h, hist.Op{Kind: "noformat", F: 0, Flag: i%2 == 0}, hist.Op{Kind: "render", F: 0}, hist.Op{Kind: "imports", F: 0})
+		out = append(out, &Case{Hist: h, Stream: "small-path-elements", NonTrivial: true, Meta: map[string]interface{}{"rc": rc},
+			Tags: []string{fmt.Sprintf("elem-len=%d", len([]rune(e)))}})
+	}
+
 	// multisets of paths competing for one base name
 	n := tier(t, 2000, 300000)
 	for i := 0; i < n; i++ {
